@@ -38,3 +38,4 @@ pub fn cat(parts: &[&[u8]]) -> Msg {
 pub mod v2;
 pub mod v4;
 pub mod v3;
+pub mod v1;
